@@ -95,6 +95,7 @@ class Ctl:
         self.callbacks = []  # (kind, outcome) of every callback performed
         self.nested_raised = []
         self.nested_calls = []  # solves made by callbacks on this very object, each with what is needed to judge it
+        self.expected_check = None  # the check list the workload expects (None: the class's own)
 
     def arm(self, plan, bus=None, tag=None):
         self.plan = plan or {}
@@ -379,7 +380,7 @@ def make_scripted(fsic, spec, bases=None, extra_attrs=None):
                     if d_['_' + nm].dtype.kind == 'f':
                         d_['_' + nm][t] = d_['_' + nm][t] / 2.0 + 0.25  # a contraction: the nested solve goes somewhere
             nrec['post_endo'] = [num(d_['_' + nm][t]) for nm in endo]
-            nrec['post'] = [num(d_['_' + nm][t]) for nm in (d_['check'] if isinstance(d_.get('check'), list) else check)]  # (the instance's own list, as for the outer call)
+            nrec['post'] = [num(d_['_' + nm][t]) for nm in (ctl.expected_check if ctl.expected_check is not None else check)]  # (the list the harness expects, as for the outer call)
             return
         k = ctl.count[key] = ctl.count.get(key, 0) + 1
         d = self.__dict__
@@ -437,7 +438,9 @@ def make_scripted(fsic, spec, bases=None, extra_attrs=None):
             if drift and hook == 'eval' and rec['exc'] is None and drift['name'] in d['index']:
                 # a check variable that is not endogenous (one the user added, of a dtype of its own) moves every pass
                 d['_' + drift['name']][t] = d['_' + drift['name']][t] + fval(drift['d'])
-            rec['post'] = [num(d['_' + nm][t]) for nm in (d['check'] if isinstance(d.get('check'), list) else check)]
+            # (the check variables as the harness expects them: the class's list and the edits the history itself made to
+            #  the instance's - never read back from the instance, whose list is part of what is being judged)
+            rec['post'] = [num(d['_' + nm][t]) for nm in (ctl.expected_check if ctl.expected_check is not None else check)]
             if ctl.columns:
                 rec['post_all'] = _column(d, t)
 
